@@ -217,7 +217,17 @@ func (f *Frame) callStatic(b *ssa.BasicBlock, in *ssa.Call, callee *ssa.Function
 		return f.resultVal(sanitize(callee.Name()), rs)
 	}
 	sp := f.specOf(callee)
-	if (e.callPolicy == "shallow" || (e.callPolicy == "contracts" && sp == nil)) && callee.Blocks != nil && inModule(callee) && !(sp != nil && sp.Inline) {
+	forcedOpaque := false
+	if f.callerF == nil {
+		if own := f.specOf(f.fn); own != nil {
+			for _, o := range own.Opaque {
+				if o == funcDisplay(callee) {
+					forcedOpaque = true
+				}
+			}
+		}
+	}
+	if (forcedOpaque || e.callPolicy == "shallow" || (e.callPolicy == "contracts" && sp == nil)) && callee.Blocks != nil && inModule(callee) && !(sp != nil && sp.Inline) {
 		// opaque call: its may-write set is havoced, the result is unconstrained (sound over-approximation)
 		e.funcsUsed[funcFull(callee)] = "opaque (may-write set havoced)"
 		for _, h := range e.mayWriteNames(callee) {
@@ -623,6 +633,9 @@ func (f *Frame) contractCall(b *ssa.BasicBlock, in *ssa.Call, callee *ssa.Functi
 	for _, en := range sp.Ensures {
 		if en.BodyOnly {
 			continue
+		}
+		if mentionsGhost(en.Expr, sp) {
+			continue // stated with the callee's ghost counting functions: not available to callers
 		}
 		t, ok := evalClauseAt(post, en)
 		if !ok {
@@ -1050,4 +1063,31 @@ func (f *Frame) lockContractCall(b *ssa.BasicBlock, in *ssa.Call, callee *ssa.Fu
 	f.oblige("lock", f.oblName(fmt.Sprintf("%s:lock@%s#%d", funcDisplay(f.fn), funcDisplay(callee), f.callSite(callee))), g, want, funcDisplay(callee)+" "+what, []string{"C11"}, posOf(in))
 	e.assume(implies(g, want))
 	return f.resultVal(sanitize(callee.Name()), rs)
+}
+
+// mentionsGhost: does the expression use one of the contract's ghostcount functions
+func mentionsGhost(n *Node, sp *FuncSpec) bool {
+	if n == nil || len(sp.Ghosts) == 0 {
+		return false
+	}
+	if n.Kind == "call" {
+		for _, g := range sp.Ghosts {
+			if g.Name == n.Name {
+				return true
+			}
+		}
+	}
+	for _, a := range n.Args {
+		if mentionsGhost(a, sp) {
+			return true
+		}
+	}
+	for _, ts := range n.Trigs {
+		for _, t := range ts {
+			if mentionsGhost(t, sp) {
+				return true
+			}
+		}
+	}
+	return false
 }
